@@ -68,6 +68,7 @@ WORLD_OP = st.one_of(
     st.tuples(st.just('mp_add'), MPTX),
     st.tuples(st.just('mp_chain'), st.integers(2, 8), st.lists(OUT, min_size=1, max_size=2)),
     st.tuples(st.just('mp_evict'), st.integers(0, 9)),
+    st.tuples(st.just('mp_coll'), st.integers(0, 5), st.lists(OUT, min_size=1, max_size=2)),
     st.tuples(st.just('blocks'), st.lists(BLOCK, min_size=1, max_size=2)),
     st.tuples(st.just('fork'), st.integers(1, 2), st.lists(BLOCK, min_size=1, max_size=2)),
     st.tuples(st.just('mp_flood'), st.integers(201, 230)),
@@ -314,6 +315,19 @@ class MempoolMachine:
                     self.was_in_mempool.add(tx.txid)
         elif kind == 'mp_evict':
             w.mp_evict(op[1])
+        elif kind == 'mp_coll':
+            # spend an output of a confirmed transaction whose 4-byte txid prefix another
+            # confirmed transaction shares (the index must tell them apart by the full hash)
+            chain_ids = w._chain_txids(w.best)
+            cands = [(t.txid, i) for t in w.collision_txs if t.txid in chain_ids
+                     for i in range(len(t.outs))]
+            conf, _ = w.mempool_spendable()
+            cands = [c for c in cands if c in set(conf)]
+            if cands:
+                tx = w.mp_add_spending([cands[op[1] % len(cands)]], op[2])
+                if tx is not None:
+                    self.was_in_mempool.add(tx.txid)
+                    self.info['classes'].add('mempool_tx_spends_prefix_colliding_output')
         elif kind == 'mp_vanish':
             # leaves the daemon's mempool now and is broadcast again before the next listing: the
             # listing of the next refresh equals this one's although this one could not fetch it
